@@ -4,6 +4,16 @@ NOTES = ("Technique: machine-checked proof in Lean 4 about a hand-written execut
          "correspondence run on every check (DESIGN.md). fix: commits in /repo are listed in known_findings.json.")
 NOT_APPLICABLE = {}
 CHECKS = {
+    "C18": {
+        "text": ("Lean theorems (unbounded): for every bytewise-sorted input the repaired de-duplication returns a list in which no element is inside another "
+                 "(dedupe_prefix_free, by an invariant over the loop), kernel-checked witnesses for the unrepaired/repaired versions. Correspondence: "
+                 "FollowLinks over synthetic and on-disk views with relative/absolute/'..'/chained/cyclic/self/dangling links and wildcard requests vs the "
+                 "transcribed resolver (0 disagreements on the generated cases); oracle: the chroot-style reference resolver (every traversed link and the "
+                 "final location covered by the result, empty result when the root is reached, sorted, prefix-free); termination by a 5 s watchdog."),
+        "note": ("Trusted: Lean kernel + standard axioms; termination and closure of the resolver are decided by correspondence + oracle per case, not by a "
+                 "theorem (the variant is the `resolved` set); known findings F12 (middle wildcards) and F19 (memo keyed by link path) are listed; the "
+                 "end-to-end clause (transfer with those follow-paths resolves identically) is not exercised yet."),
+    },
     "C10": {
         "text": ("Lean theorems (unbounded): core pruning lemma for the parent-result matcher over arbitrary pattern lists (prune_core: under the semantic "
                  "prune condition a negative verdict at a directory stays negative for every descendant); soundness of the syntactic test with a single trim "
